@@ -46,6 +46,7 @@ type Scenario struct {
 	Name        string    `json:"name"`
 	YieldSeed   int64     `json:"yield_seed"`
 	Intensity   int       `json:"yield_intensity_percent"`
+	WTRDelayUS  int       `json:"write_then_read_delay_us"` // reactive.WriteThenReadDelay for this scenario
 	Cells       int       `json:"cells"`
 	RRs         []*RRSpec `json:"rerunners"`
 	Writers     [][]Op    `json:"writers"`
@@ -79,7 +80,7 @@ type Options struct {
 }
 
 func (sc *Scenario) Shape() string {
-	s := fmt.Sprintf("cells=%d wf=%v", sc.Cells, sc.WaitFirst)
+	s := fmt.Sprintf("cells=%d wf=%v wtr=%v", sc.Cells, sc.WaitFirst, sc.WTRDelayUS > 0)
 	for _, r := range sc.RRs {
 		s += fmt.Sprintf(" rr(spawn=%v %s)", r.Spawn, r.Plan.Shape())
 	}
@@ -101,6 +102,9 @@ func (sc *Scenario) Shape() string {
 	}
 	return s
 }
+
+// straggled is set once a scenario left goroutines inside thunder behind.
+var straggled bool
 
 // Run executes the scenario against the real reactive package. It must not be
 // called concurrently: the hook handler is process-global.
@@ -147,6 +151,11 @@ func Run(sc *Scenario, opt Options, agg *vlib.HitAgg) *Result {
 	}
 	y.Install()
 
+	// reactive.WriteThenReadDelay is a package variable: it is only changed
+	// while no goroutine of an earlier scenario can still be inside thunder.
+	if !straggled {
+		reactive.WriteThenReadDelay = time.Duration(sc.WTRDelayUS) * time.Microsecond
+	}
 	for _, rr := range w.RRs {
 		rr.Start()
 	}
@@ -236,6 +245,7 @@ func Run(sc *Scenario, opt Options, agg *vlib.HitAgg) *Result {
 	left := vlib.WaitNoThunderGoroutines(120)
 	res.Stragglers = len(left)
 	if len(left) > 0 {
+		straggled = true
 		w.mu.Lock()
 		w.findLocked(KUndecided+":stragglers", fmt.Sprintf("%d goroutine(s) with thunder frames still alive 600 ms after every rerunner was stopped", len(left)),
 			map[string]interface{}{"stacks": vlib.Trunc(fmt.Sprint(left), 6000)})
